@@ -1497,8 +1497,21 @@ static void op_write(struct mon_rng *r) {
         n = c->len;
         src_bytes = cur_bytes(c);
         exp_ok = n <= room;
-        rv = aws_byte_buf_write_from_whole_cursor(&m->b, c->c);
-        tr(" write_from_whole_cursor(#%d room%zu,c%d len%zu)=%d", i, room, ci, n, rv);
+        if (c->kind != C_NULL && n <= 4096 && mon_chance(r, 1, 3)) {
+            /* the same operation through its aws_string entry point (copy of the cursor's bytes) */
+            s_op = "write_from_whole_string";
+            struct aws_string *str = aws_string_new_from_cursor(mon_guard_allocator(), &c->c);
+            struct aws_byte_cursor back = aws_byte_cursor_from_string(str);
+            if (back.len != n || (n && memcmp(back.ptr, src_bytes, n))) {
+                mon_violation("C01:string-copy", "aws_string_new_from_cursor/aws_byte_cursor_from_string: %zu bytes in, %zu bytes out or contents differ", n, back.len);
+            }
+            rv = aws_byte_buf_write_from_whole_string(&m->b, str);
+            aws_string_destroy(str);
+            tr(" write_from_whole_string(#%d room%zu,c%d len%zu)=%d", i, room, ci, n, rv);
+        } else {
+            rv = aws_byte_buf_write_from_whole_cursor(&m->b, c->c);
+            tr(" write_from_whole_cursor(#%d room%zu,c%d len%zu)=%d", i, room, ci, n, rv);
+        }
     } else if (v == 4) {
         s_op = "write_from_whole_buffer";
         int j = live_buf(r, i);
